@@ -10,14 +10,21 @@ After EVERY operation the whole observable state is read back through the public
 through the oldest handle objects held), and every single call - the operations and the reads -
 is compared with
 
-  impl   the Lean model MongoModel.Catalog.step (faithful, defects included),
+  impl   the Lean model MongoModel.Catalog.step (faithful, remaining defects included),
   spec   the oracle Spec.Catalog.step taken from the abstraction of the model's state (per step),
   spech  the oracle run along the whole history from the empty server (never re-synchronised),
 
 together with the exclusion classes (Spec.CatalogDomain.reasons) of the step and whether the
 model's and the oracle's successor states denote the same maps.  The reads are part of the
 history the model sees (a read lazily creates stores in mongomock, and that is observable
-through list_collection_names(filter=...)).
+through list_collection_names(filter=...) whenever the code lists more than what exists).
+
+The exclusion classes left are vanish_last_doc / vanish_last_index (known findings) and the two
+scope limits.  rename_self_droptarget, filter_lists_uncreated, drop_database_foreign_handle,
+drop_collection_foreign_handle and system_create_existing were repaired in the library: they are
+no class of D any more, the model follows the repaired code, so the old behaviour departs from
+model and oracle alike and is a VIOLATION.  The witnesses of the repaired findings
+(known_findings.json, status "fixed") are run through the same correspondence on every run.
 """
 import collections
 import json
@@ -381,11 +388,13 @@ def gen_action(rng, st):
     if k == 'get_coll':
         return [k, c, d, dmode, rng.choice(BAD_NAMES + ['a', SYSTEM])]
     if k == 'create_collection':
-        return [k, c, d, dmode, rng.choice(BAD_NAMES) if rng.random() < 0.06 else n]
+        x = rng.random()
+        return [k, c, d, dmode, rng.choice(BAD_NAMES) if x < 0.06 else SYSTEM if x < 0.12 else n]
     if k == 'drop_collection':
         return [k, c, d, dmode, rng.choice(BAD_NAMES) if rng.random() < 0.05 else n]
     if k == 'drop_collection_h':
-        if rng.random() < 0.7:
+        # the handle handed over comes from this database, or from any client's any database
+        if rng.random() < 0.5:
             c2, d2 = rng.choice([c, c, 2 - c if c != 1 else 1]), d
         else:
             c2, d2 = rng.choice([0, 1, 2]), rng.choice(DBS)
@@ -400,7 +409,7 @@ def gen_action(rng, st):
     if k == 'drop_database':
         return [k, c, d]
     if k == 'drop_database_h':
-        c2 = c if rng.random() < 0.7 else rng.choice([0, 1, 2])
+        c2 = c if rng.random() < 0.5 else rng.choice([0, 1, 2])
         return [k, c, c2, d, dmode]
     raise AssertionError(k)
 
@@ -665,6 +674,25 @@ def run(ctx, proof, driver_ok):
     hist_d = 0
     stale = 0
     batch = 250
+    # the witnesses of the findings repaired in the library, through the same correspondence
+    regress = [e for e in common.load_known('C17') if e.get('status') == 'fixed']
+    if regress:
+        rcases = [{'actions': e['witness']['actions'], 'obs': 'full'} for e in regress]
+        rexs, ranswers = run_batch(rcases)
+        for e, case, ex, ans in zip(regress, rcases, rexs, ranswers):
+            evaluations += len(ex.ops)
+            v = judge(ex, ans, known)
+            if v.kind == 'internal':
+                raise RuntimeError('model and oracle differ inside D on the witness of %s: %r'
+                                   % (e['id'], describe(ex, ans, max(v.first, 0))))
+            if v.kind == 'violation':
+                report_violation(ctx, case, known, v, ex, ans)
+            elif v.kind == 'stale':
+                ctx.notes.append('model stale on the witness of %s' % e['id'])
+            elif not v.in_d or v.unlisted:
+                ctx.violation({'kind': 'the witness of the repaired finding %s is outside D'
+                                       % e['id'], 'actions': case['actions'], 'obs': 'full',
+                               'python': snippet(case)}, rank=1)
     while done < n and not ctx.too_many():
         cases = [gen_history(rng) for _ in range(min(batch, n - done))]
         done += len(cases)
@@ -722,6 +750,7 @@ def run(ctx, proof, driver_ok):
         'zones': dict(zones),
         'deviations_by_reason': dict(findings),
         'model_stale_histories': stale,
+        'repaired_finding_witnesses_replayed': [e['id'] for e in regress],
         'operation_histogram': dict(kinds),
         'python_outcomes': dict(outcomes),
         'history_length_histogram': {str(k): v for k, v in sorted(lens.items())},
